@@ -152,6 +152,8 @@ def run(facts, res):
             if t.callee is None or t.callee.target() != "utils::merge_arrays":
                 continue
             n3 += 1
+            if b.kind == "closure" and _fold_pipeline(facts, cg_of(facts), R, b, bi, t, res):
+                continue
             dst = du.operand_term(t.args[1], 10)
             dv = {x[1] for x in walk(dst) if x[0] == "var"}
             returned = False
@@ -197,9 +199,9 @@ def run(facts, res):
     # M3b: a view of an array built from a stored revision always goes through the fold: the order handed to the descriptor a
     # reader returns never comes straight from the single-revision reconstruction (which knows nothing of the other leaves)
     n3b = 0
-    folders = {b.path for b in facts.repo_bodies() for _, t in b.calls() if t.callee is not None and t.callee.target() == "utils::merge_arrays"}
+    folders = {b.path.split("::{closure")[0] for b in facts.repo_bodies() for _, t in b.calls() if t.callee is not None and t.callee.target() == "utils::merge_arrays"}
     for b in facts.repo_bodies():
-        if b.path in folders:
+        if b.path.split("::{closure")[0] in folders:
             continue
         for bi, t in b.calls():
             if t.callee is None or t.callee.name != "new_from_order" or not t.args:
@@ -230,9 +232,15 @@ def run(facts, res):
         order_key = facts.const_str("constants::ARRAY_DESCRIPTOR_ORDER_FIELD")
         for cb in _mo(facts, fl):
             for bi, t in cb.calls():
-                if t.callee is None or t.callee.name != "insert" or "serde_json::Map" not in t.callee.path or len(t.args) < 3:
+                if t.callee is None or not t.args:
                     continue
-                k_ = du_of(cb).operand_term(t.args[1], 10)
+                if t.callee.name == "insert" and "serde_json::Map" in t.callee.path and len(t.args) >= 3:
+                    k_ = du_of(cb).operand_term(t.args[1], 10)
+                elif t.callee.name in ("once", "from_iter", "from"):
+                    # `once((ORDER_FIELD.to_string(), order)).collect()` / `Map::from_iter([(ORDER_FIELD.., order)])`
+                    k_ = du_of(cb).operand_term(t.args[0], 10)
+                else:
+                    continue
                 if order_key not in [x[2] for x in walk(k_) if x[0] == "const" and x[1] == "str"]:
                     continue
                 n5 += 1
@@ -297,6 +305,79 @@ def run(facts, res):
 
 
 FIXTURE_EXPECT = ['merge_arrays|removes:retain']
+
+
+def _fold_pipeline(facts, cg, R, b, bi, t, res):
+    """pipeline form of the fold: `leafs.iter().try_for_each(|l| rebuild(l).map(|o| merge_arrays(&o, &mut acc)))?; Ok(acc)` - the step
+    sits in a closure (possibly inside an Option / Result combinator); judged with the same five facts as the loop form. Returns True
+    when the form was recognised and judged."""
+    from ..common import iter_chain
+    du = du_of(b)
+    dst = du.operand_term(t.args[1], 10)
+    ups = [x[2].split(".")[0] for x in walk(dst) if x[0] == "upvar"]
+    if not ups:
+        return False
+    # walk up to the consumer in the owning function
+    cb_, hops_, per_leaf = b, 0, False
+    site = None
+    src = du.operand_term(t.args[0], 16)
+    if contains_call(src, R.name("rebuilder")):
+        per_leaf = True
+    while cb_ is not None and cb_.kind == "closure" and hops_ < 4:
+        hops_ += 1
+        nxt_ = None
+        for cs_ in cg.callers_of(cb_.path):
+            if cb_ not in cs_.closures or cs_.callee is None or not cs_.term.args:
+                continue
+            rc_ = arg_term(cs_.body, cs_.term, 0, 30)
+            if cs_.callee.name in ("for_each", "try_for_each"):
+                site = (cs_, rc_)
+            elif cs_.callee.name in ("map", "and_then", "inspect"):
+                if contains_call(rc_, R.name("rebuilder")) and any(x[0] == "param" for x in walk(rc_)):
+                    per_leaf = True
+                nxt_ = cs_.body
+            break
+        if site is not None:
+            break
+        cb_ = nxt_
+    if site is None:
+        return False
+    cs_, rc_ = site
+    ob = cs_.body
+    if ob.kind == "closure":
+        return False
+    odu = du_of(ob)
+    if not per_leaf:
+        per_leaf = contains_call(src, R.name("rebuilder"))
+    names = [callee_name(x) for x in iter_chain(rc_)]
+    whole = contains_call(rc_, "get_leafs") and not (set(names) & {"take", "skip", "filter", "step_by", "take_while", "skip_while", "rev", "filter_map", "find"})
+    acc = [i for i, l in enumerate(ob.locals) if l.get("name") in ups]
+    returned = False
+    for ob_, st in assigns_of_return(ob, "Ok"):
+        if {x[1] for x in walk(odu.rvalue_term(st.rv, 8)) if x[0] == "var"} & set(acc):
+            returned = True
+    seeded = False
+    for a_ in acc:
+        for x in walk(odu.local_term(a_, 30)):
+            if x[0] == "call" and callee_name(x) == R.name("rebuilder") and len(x[2]) >= 2 and any(y[0] == "param" for y in walk(x[2][1])):
+                seeded = True
+    # a try_for_each stops at the first error: that error must be handed on (`?`), not dropped
+    early = 0
+    if cs_.callee.name == "try_for_each":
+        handed = any(t2.callee is not None and t2.callee.name == "branch" and any(x[0] == "call" and x[3] == cs_.block for x in walk(arg_term(ob, t2, 0, 6)))
+                     for _, t2 in ob.calls()) or (cs_.term.dest is not None and cs_.term.dest.local == 0)
+        early = 0 if handed else 1
+    res.instance("M3", "%s: the fold's destination starts as the order at the requested (winning) revision: %s" % (b.path, seeded), b.loc(t.line))
+    if not seeded:
+        res.violation("M3", "%s|fold-not-seeded-with-base" % ob.path,
+                      "%s folds the leaves into a destination that does not start as the order at the base (winning) revision: the merged array would "
+                      "follow the order of whichever leaf is folded first instead of the winner's" % ob.path, b.loc(t.line))
+    res.instance("M3", "%s: pipeline fold: merge_arrays(order of each leaf (%s), &mut base) over the whole leaf set (%s); base is returned (%s); dropped errors: %d" % (
+        ob.path, per_leaf, whole, returned, early), b.loc(t.line))
+    if not (per_leaf and whole and returned and not early):
+        res.violation("M3", "%s|fold-incomplete" % ob.path, "%s does not fold every leaf's order into the returned base (per leaf: %s, whole set: %s, returned: %s, early exits: %d)" % (
+            ob.path, per_leaf, whole, returned, early), b.loc(t.line))
+    return True
 
 
 def thorough(res):
